@@ -593,19 +593,24 @@ def _per_iteration_local(n, tgt, f) -> bool:
 
 
 def _lives_inside_loop(n, tgt, f) -> bool:
-    loop = next((a for a in _anc(n, f.node) if isinstance(a, (ast.For, ast.While))), None)
-    if loop is None or tgt in f.params:
-        return False
-    inside = {id(x) for x in ast.walk(loop)}
-    if any(isinstance(x, ast.Name) and x.id == tgt and id(x) in {id(y) for y in ast.walk(loop.target)} for x in ast.walk(loop.target)) if isinstance(loop, ast.For) else False:
+    """tgt never carries a value from one iteration to the next or out of a loop: wherever it is read, the read sits in a loop
+    body (the innermost loop around an assignment of tgt) in which tgt is definitely assigned before it is read."""
+    if tgt in f.params:
         return False
     for x in ast.walk(f.node):
-        if isinstance(x, ast.Name) and x.id == tgt and id(x) not in inside:
-            return False
         if isinstance(x, (ast.Nonlocal, ast.Global)) and tgt in x.names:
             return False
-    # and it is assigned before it is read in every iteration (definite assignment over the loop body)
-    return _assigned_before_read(loop.body, tgt, False)[1]
+    occ = [x for x in ast.walk(f.node) if isinstance(x, ast.Name) and x.id == tgt]
+    loops = []
+    for x in occ:
+        lp = next((a for a in _anc(x, f.node) if isinstance(a, (ast.For, ast.While))), None)
+        if lp is None:
+            return False  # bound or read outside every loop
+        if isinstance(lp, ast.For) and any(x is y for y in ast.walk(lp.target)):
+            return False
+        if not any(lp is q for q in loops):
+            loops.append(lp)
+    return all(_assigned_before_read(lp.body, tgt, False)[1] for lp in loops)
 
 
 def _assigned_before_read(stmts, name: str, assigned: bool):
